@@ -142,6 +142,8 @@ pub enum Op {
     OracleMode(OracleMode),
     CanRedel { val: String, flag: bool },
     LegacyWait { addr: String, batch: u64, amt: u128 },
+    /// call the contract's `migrate` entry point (hub | reward | disp | reg | bsei)
+    Migrate { contract: String },
     // 3.4 state injection (synthesised start states)
     PokeHubState { ber: u128, ser: u128, bb: u128, bst: u128, lim: u64, phb: u128, lut: u64, lpb: u64 },
     PokeBatch { id: u64, reqb: u128, reqst: u128 },
@@ -473,6 +475,13 @@ fn parse_inner(c: &mut Cur) -> Result<Op, String> {
         }),
         "canredel" => Op::CanRedel { val: c.chain_val()?, flag: c.flag()? },
         "legacy_wait" => Op::LegacyWait { addr: c.addr()?, batch: c.u64()?, amt: c.u128()? },
+        "migrate" => {
+            let t = c.next()?;
+            if !["hub", "reward", "disp", "reg", "bsei"].contains(&t) {
+                return Err(format!("migrate: unknown contract `{}`", t));
+            }
+            Op::Migrate { contract: t.to_string() }
+        }
         "poke_hubstate" => Op::PokeHubState {
             ber: c.u128()?,
             ser: c.u128()?,
@@ -791,6 +800,7 @@ impl Op {
             Op::OracleMode(m) => format!("oraclemode {}", m.as_str()),
             Op::CanRedel { val, flag } => format!("canredel {} {}", val, b(*flag)),
             Op::LegacyWait { addr, batch, amt } => format!("legacy_wait {} {} {}", addr, batch, amt),
+            Op::Migrate { contract } => format!("migrate {}", contract),
             Op::PokeHubState { ber, ser, bb, bst, lim, phb, lut, lpb } => format!(
                 "poke_hubstate {} {} {} {} {} {} {} {}",
                 ber, ser, bb, bst, lim, phb, lut, lpb
@@ -1368,6 +1378,35 @@ pub fn apply_op(world: &mut World, op: &Op) -> OpResult {
             let mut bucket: Bucket<Uint128> =
                 Bucket::multilevel(&mut storage, &[b"wait", &addr_key]);
             OpResult::from(bucket.save(&batch_key, &u(*amt)).map_err(|e| e.to_string()))
+        }
+        Op::Migrate { contract } => {
+            let r = match contract.as_str() {
+                "hub" => run_migrate(world, HUB, |d, e| {
+                    let msg = basset::hub::MigrateMsg {
+                        reward_dispatcher_contract: "disp".to_string(),
+                        validators_registry_contract: "reg".to_string(),
+                        stsei_token_contract: "stsei".to_string(),
+                        rewards_contract: "reward".to_string(),
+                    };
+                    basset_sei_hub::contract::migrate(d, e, msg).map_err(|e| e.to_string())
+                }),
+                "reward" => run_migrate(world, REWARD, |d, e| {
+                    basset_sei_reward::contract::migrate(d, e, basset::reward::MigrateMsg {}).map_err(|e| e.to_string())
+                }),
+                "disp" => run_migrate(world, DISP, |d, e| {
+                    basset_sei_rewards_dispatcher::contract::migrate(d, e, basset_sei_rewards_dispatcher::msg::MigrateMsg {})
+                        .map_err(|e| e.to_string())
+                }),
+                "reg" => run_migrate(world, REG, |d, e| {
+                    basset_sei_validators_registry::contract::migrate(d, e, basset_sei_validators_registry::msg::MigrateMsg {})
+                        .map_err(|e| e.to_string())
+                }),
+                _ => run_migrate(world, BSEI, |d, e| {
+                    basset_sei_token_bsei::contract::migrate(d, e, basset_sei_token_bsei::msg::MigrateMsg {})
+                        .map_err(|e| e.to_string())
+                }),
+            };
+            OpResult::from(r)
         }
         Op::PokeHubState { .. }
         | Op::PokeBatch { .. }
